@@ -82,7 +82,9 @@ def storeSignJWSHeaders (found : Bool) (h : Headers) (kid : String) : Except JEr
 /-- package-level `SignJWT`: `convertHeaders` sets every header, there is NO jwk rule here -/
 def signJWTHeaders (h : Headers) : Except JErr Headers :=
   if h.any (fun p => !settable p.1 p.2) then .error .invalidHeaders
-  else .ok (alDel h "alg")
+  else
+    let out := alDel h "alg"
+    .ok (if (hget out "typ").isNone then hput out "typ" (.str "JWT") else out)   -- jwt.Sign supplies `typ: JWT`
 
 /-- `Crypto.SignJWT` / `MemoryJWTSigner.SignJWT`: headers are copied, `kid` is set, then the package-level function -/
 def storeSignJWTHeaders (found : Bool) (h : Headers) (kid : String) : Except JErr Headers :=
@@ -90,7 +92,14 @@ def storeSignJWTHeaders (found : Bool) (h : Headers) (kid : String) : Except JEr
   else signJWTHeaders (hput (dedup h) "kid" (.str kid))
 
 /-- `dpop.jwkIsPrivateKey`: Raw into rsa.PrivateKey / ecdsa.PrivateKey / ed25519.PrivateKey values -/
-def dpopPrivateTypes : List String := ["*rsa.PrivateKey", "*ecdsa.PrivateKey", "ed25519.PrivateKey"]
+def dpopPrivateTypes : List String := ["*rsa.PrivateKey", "*ecdsa.PrivateKey", "ed25519.PrivateKey", "[]uint8"]
 def dpopJwkIsPrivate (rawType : String) : Bool := dpopPrivateTypes.contains rawType
+
+/-- `didjwk.Resolver.Resolve` on a did:jwk that embeds a JWK of that raw type (observed contract of
+    `rawPrivateKeyOf`: generic comparison of the raw key with its public half) -/
+def didJwkOutcome (rawType : String) : String :=
+  if ["*rsa.PrivateKey", "*ecdsa.PrivateKey", "ed25519.PrivateKey", "x25519.PrivateKey"].contains rawType then "forbidden-private"
+  else if rawType = "[]uint8" then "resolved-WITH-SECRET"    -- a symmetric key has no public half: echoed as is
+  else "resolved"
 
 end Nuts.C03
